@@ -507,11 +507,13 @@ check("C19", "model_checking",
       "every position, or more items than its size hint: that shard's call must fail. Transport arm: census of every shard-to-shard "
       "stream (InspectContext::ShardMessage), every record slot of every such stream made undecodable in a separate run: the "
       "receiving shard must fail, never return Ok. Schedule arm (config B): the same call on 2-3 shards under the preemption-"
-      "bounded DFS scheduler, every schedule inside the exploration window; the output must be the same vector on every schedule. reshard_aad (values stay, tags are resharded): 1-3 shards x 0..5 (9) records x 2 placements x every picker, and an error item at every position: values complete and in order, tags in the reference order on every shard of every helper.",
+      "bounded DFS scheduler, every schedule inside the exploration window; the output must be the same vector on every schedule. reshard_aad (values stay, tags are resharded): 1-3 shards x 0..5 (9) records x 2 placements x every picker, and an error item at every position: values complete and in order, tags in the reference order on every shard of every helper. Order under timing (part prf-order): compute_prf_and_reshard on 3 shards, shard 0 without reports, 12 tagged reports on each of the others, with the shard-to-shard traffic into shard 0 from shard 1 or from shard 2 held back: every shard holds its records grouped by source shard in shard order in all three timings, identically on the three helpers.",
       [{"name": "grid", "config": "A", "test": "verif::c19::run", "timeout": {"quick": 900, "thorough": 3600},
         "require": {"any": {"honest_runs": 200, "error_runs": 20, "transport_faults_failed_loudly": 10}}},
        {"name": "prf", "config": "A", "test": "verif::c19p::run", "timeout": {"quick": 900, "thorough": 3600},
         "require": {"any": {"prf_faults_failed_loudly": 10}}},
+       {"name": "prf-order", "config": "A", "test": "verif::c19p::order3::run_order",
+        "require": {"any": {"prf_order_runs": 3}}},
        {"name": "aad", "config": "A", "test": "query::runner::verif::c19a::run", "timeout": {"quick": 900, "thorough": 3600},
         "require": {"any": {"reshard_aad_runs": 100}}},
        {"name": "sched", "config": "B", "test": "verif::c19s::run", "workers": {"quick": 16, "thorough": 16},
